@@ -60,13 +60,13 @@ type config struct {
 func plan(tier string, seed int64) []run.Batch {
 	deltas := []uint32{0, 1, 431, 432, 433, 2015, 2016, 2017, 3199, 3200, 3599, 3600}
 	var bs []run.Batch
-	nb := 4
+	nb, rounds := 8, 1
 	if tier == "thorough" {
-		nb = 16
+		nb, rounds = 48, 3
 	}
 	for i := 0; i < nb; i++ {
-		bs = append(bs, run.Batch{Kind: "datagrams", Seed: seed*1000 + int64(i), N: len(deltas), TimeoutS: 110,
-			Params: map[string]string{"slice": fmt.Sprint(i), "of": fmt.Sprint(nb)}})
+		bs = append(bs, run.Batch{Kind: "datagrams", Seed: seed*1000 + int64(i), N: len(deltas), TimeoutS: 170,
+			Params: map[string]string{"slice": fmt.Sprint(i % 8), "of": "8", "rounds": fmt.Sprint(rounds)}})
 	}
 	return bs
 }
@@ -75,12 +75,14 @@ func plan(tier string, seed int64) []run.Batch {
 
 type world struct {
 	*drv.World
-	A, B, X *drv.Dev
-	U       *drv.Dev // never authorized
-	rng     *rand.Rand
-	r       *ev.Result
-	logLen  int64
-	step    int
+	A, B, X  *drv.Dev
+	U        *drv.Dev // never authorized (until a mid-run authorization in a later week)
+	C        *drv.Dev
+	accepted [][]byte
+	rng      *rand.Rand
+	r        *ev.Result
+	logLen   int64
+	step     int
 }
 
 // acceptable implements the property's predicate on the leading 80 bytes.
@@ -196,6 +198,9 @@ func (w *world) judge(d []byte, class string, now uint32, before *server.VerifSn
 		} else {
 			w.r.Count("model.empty_to_report", 1)
 			w.r.Count("accepted_positive_controls", 1)
+			if len(w.accepted) < 12 {
+				w.accepted = append(w.accepted, append([]byte(nil), eff...))
+			}
 			if drv.RefReport(cur) != rep {
 				w.r.Violationf("acceptable-report-not-recorded", replay, "acceptable report for an empty slot was not recorded as sent: slot holds %+v", drv.RefReport(cur))
 			}
@@ -419,6 +424,10 @@ func (w *world) datagrams(now, offset uint32, full bool) []dg {
 		for _, id := range []uint32{0, 0xffffffff} {
 			add("id.extreme", refenc.Report{ID: id, Slot: s3, Power: power()}.Signed(w.A.Key.Priv).Bytes())
 		}
+		// ids that alias an authorized id under truncation / sign confusion, validly signed by that device's key
+		for _, id := range []uint32{w.A.ID + 1<<8, w.A.ID + 1<<16, w.A.ID + 1<<24, w.A.ID | 1<<31, w.A.ID ^ 1, w.A.ID<<8 | w.A.ID>>24} {
+			add("id.alias", refenc.Report{ID: id, Slot: s3, Power: power()}.Signed(w.A.Key.Priv).Bytes())
+		}
 	}
 	// (iv) boundary slots (whether or not any slot is acceptable here)
 	for _, s := range []int64{int64(now) - 433, int64(now) - 432, int64(now) - 431, int64(now), int64(now) + 431, int64(now) + 432, int64(now) + 433,
@@ -465,11 +474,20 @@ func (w *world) datagrams(now, offset uint32, full bool) []dg {
 // ---------------------------------------------------------------- child
 
 func child(b run.Batch, r *ev.Result) {
-	rng := rand.New(rand.NewSource(b.Seed))
+	rounds := 1
+	fmt.Sscan(b.P("rounds"), &rounds)
+	for k := 0; k < rounds && r.NumViolations() == 0; k++ {
+		round(b, r, b.Seed*16+int64(k), k)
+	}
+}
+
+// round is one server lifetime (well below the 120 s test-mode limit).
+func round(b run.Batch, r *ev.Result, seed int64, k int) {
+	rng := rand.New(rand.NewSource(seed))
 	drv.SetClock(0)
 	drv.GateRotation(true)
 	drv.GateImpact(true)
-	dw, err := drv.NewWorld(filepath.Join(b.Dir, "srv"), rng)
+	dw, err := drv.NewWorld(filepath.Join(b.Dir, fmt.Sprintf("srv%d", k)), rng)
 	if err != nil {
 		r.Inconc("cannot start world: " + err.Error())
 		return
@@ -499,13 +517,27 @@ func child(b run.Batch, r *ev.Result) {
 	var slice, of int
 	fmt.Sscan(b.P("slice"), &slice)
 	fmt.Sscan(b.P("of"), &of)
-	full := b.Tier == "thorough"
-	deltas := []uint32{0, 1, 431, 432, 433, 2015, 2016, 2017, 3199, 3200, 3599, 3600}
-	deltas = append(deltas, uint32(rng.Intn(3601)), uint32(rng.Intn(3601)))
+	full := b.Tier == "thorough" || slice == 0
+	deltas := []uint32{0, 1, 431, 432, 433, 2015, 2016, 2017, 3199, 3200, 3599, 3600, 3601, 4031, 4032, 4033, 4463, 4464, 4465, 8064}
+	deltas = append(deltas, uint32(rng.Intn(3601)), uint32(rng.Intn(3601)), uint32(3600+rng.Intn(900)))
 	offsets := []uint32{0, 2016, 4032}
 	// Each child takes the configurations whose index falls into its slice.
 	ci := 0
-	for _, off := range offsets {
+	for oi, off := range offsets {
+		// membership changes between weeks: what counts is who is authorized *now*
+		if oi == 1 {
+			if c, err := dw.AddDevice(400+uint32(rng.Intn(50)), capacity); err == nil {
+				w.U, w.C = c, w.U // U becomes authorized; its earlier rejected reports stay rejected history
+				_ = w.C
+				r.Count("membership.authorized_midrun", 1)
+			}
+		}
+		if oi == 2 {
+			if st, err := dw.BanDevice(w.B.ID); err == nil && st != 200 {
+				w.X, w.B = w.B, w.A // B is banned from now on
+				r.Count("membership.banned_midrun", 1)
+			}
+		}
 		// reach the offset by real rotations
 		for {
 			snap := w.S.VerifSnapshot(false)
@@ -539,6 +571,10 @@ func child(b run.Batch, r *ev.Result) {
 				}
 			}
 			w.surfaces(before)
+			// replay datagrams accepted earlier (possibly in a week that has rotated away since)
+			for _, old := range w.accepted {
+				before = w.judge(old, "replay.old", now, before, false)
+			}
 			r.Count("configurations", 1)
 			if len(dgs) > 0 {
 				r.Sample(map[string]interface{}{"now": now, "offset": off, "class": dgs[len(dgs)/2].class, "bytes": hex.EncodeToString(dgs[len(dgs)/2].b)})
